@@ -2,7 +2,149 @@
 
 package hyper
 
+// Contracts for the verifier in /verif (comment-only; see /verif/DESIGN.md).
+
 /*@
-func QueryProof.Verify
+typeinv position by newPosition: self.numBits == uint16(len(self.Index)) * 8 && self.Height <= self.numBits && len(self.Index) < 8192
+
+typeinv QueryProof by NewQueryProof: !isnil(self.hasher)
+
+func NewQueryProof
+  props C02 C12 C13
+  requires !isnil(hasher)
+  ensures result != nil && fresh(result) && bytes(result.Key) == bytes(key) && len(result.Key) == len(key)
+  ensures len(result.Value) == len(value) && result.AuditPath == auditPath
+
+// ---- positions (verifier side) ------------------------------------------------
+
+func newPosition
+  props C02 C12
+  requires len(index) < 8192 && int(height) <= len(index) * 8
+  ensures result.Height == height && result.numBits == uint16(len(index)) * 8 && len(result.Index) == len(index)
+
+func newRootPosition
+  props C02 C12
+  requires indexNumBytes < 8192
+  ensures result.Height == indexNumBytes * 8 && len(result.Index) == int(indexNumBytes)
+
+func position.IsLeaf
+  props C02 C12
+  ensures result == (p.Height == 0)
+
+func position.Left
+  props C02 C12
+  ensures len(result.Index) == len(p.Index)
+  ensures p.Height == 0 ==> result.Height == 0
+  ensures p.Height != 0 ==> result.Height == p.Height - 1
+
+func position.Right
+  props C02 C12
+  ensures len(result.Index) == len(p.Index)
+  ensures p.Height == 0 ==> result.Height == 0
+  ensures p.Height != 0 ==> result.Height == p.Height - 1
+
+func position.splitBase
+  props C02 C12
+  ensures len(result) == len(p.Index) && fresh(result)
+
+func bitSet
+  props C02 C12
+  requires int(i / 8) < len(bits)
+  modifies bits[*]
+
+func position.Bytes
+  props C02 C12
+
+// ---- operation stack ---------------------------------------------------------
+
+func newOperationsStack
   props C12
+  ensures result != nil && fresh(result) && len(*result) == 0
+
+func operationsStack.Len
+  props C12
+  ensures result == len(*s)
+
+func operationsStack.Push
+  props C12
+  modifies *s
+  ensures len(*s) == old(len(*s)) + 1
+
+// ASSUMED (not verified): the stack never holds a nil operation. Push is only
+// ever called with the result of an operation constructor, but stating that
+// needs an invariant over all slice elements, which the verifier does not
+// have. The other clauses are verified against Pop's body.
+func operationsStack.Pop
+  props C12
+  requires len(*s) > 0
+  modifies *s
+  ensures len(*s) == old(len(*s)) - 1
+  assumes result != nil
+
+// operations are immutable records carrying their interpreter closure
+typeinv operation by leafHash,innerHash,updateBatchNode,updateBatchShortcut,getDefaultHash,getProvidedHash,putInCache,mutateBatch,collectValue,collectHash,getFromPath,noOp: self.Interpret != nil
+
+func leafHash
+  props C12
+  ensures result != nil && fresh(result)
+func innerHash
+  props C12
+  ensures result != nil && fresh(result)
+func getFromPath
+  props C12
+  ensures result != nil && fresh(result)
+func updateBatchNode
+  props C12
+  ensures result != nil && fresh(result)
+func updateBatchShortcut
+  props C12
+  ensures result != nil && fresh(result)
+func getDefaultHash
+  props C12
+  ensures result != nil && fresh(result)
+func getProvidedHash
+  props C12
+  ensures result != nil && fresh(result)
+func putInCache
+  props C12
+  ensures result != nil && fresh(result)
+func mutateBatch
+  props C12
+  ensures result != nil && fresh(result)
+func collectValue
+  props C12
+  ensures result != nil && fresh(result)
+func collectHash
+  props C12
+  ensures result != nil && fresh(result)
+func noOp
+  props C12
+  ensures result != nil && fresh(result)
+
+// ---- pruning for verification (terminates: the height strictly decreases) ------
+
+func pruneToVerify
+  props C02 C12
+  requires len(index) < 8192
+  requires len(value) <= len(index) || len(value) >= 8 * len(index)
+  ensures result != nil && len(*result) >= 1
+
+func pruneToVerify.traverse
+  props C02 C12
+  requires ops != nil
+  requires len(pos.Index) == len(index)
+  decreases pos.Height
+  modifies *ops
+  ensures len(*ops) > old(len(*ops))
+
+// ---- proofs --------------------------------------------------------------------
+
+func AuditPath.Get
+  props C12
+
+func QueryProof.Verify
+  props C02 C12
+  requires len(key) < 8192
+  requires len(p.Value) <= len(key) || len(p.Value) >= 8 * len(key)
+  modifies everything
 @*/
